@@ -72,6 +72,10 @@ func (g *FnGen) renderBody(upTo int, model bool) string {
 			b.WriteString("\n")
 		case itAssume:
 			fmt.Fprintf(&b, "(assert %s)\n", implies(it.Guard, it.Fact))
+		case itCover:
+			if upTo < 0 {
+				fmt.Fprintf(&b, "(push 1)\n(assert %s)\n(echo \"CV %d\")\n(check-sat)\n(pop 1)\n", it.Guard, i)
+			}
 		case itOblig:
 			if upTo < 0 {
 				b.WriteString("(push 1)\n")
@@ -139,7 +143,7 @@ func tmpFile(dir, prefix string) string {
 // Discharge runs all obligations of the function. First a single incremental run on the fastest
 // solver; then every obligation not proved there is raced standalone on all solvers.
 func (g *FnGen) Discharge(workDir string, timeoutMs int, keep bool) {
-	if len(g.obs) == 0 {
+	if len(g.obs) == 0 && len(g.covers) == 0 {
 		return
 	}
 	script := g.incrementalScript()
@@ -169,6 +173,23 @@ func (g *FnGen) Discharge(workDir string, timeoutMs int, keep bool) {
 			fmt.Sscanf(l, "OB %d", &idx)
 			if i+1 < len(lines) {
 				res[idx] = strings.TrimSpace(lines[i+1])
+			}
+		}
+	}
+	for _, c := range g.covers {
+		c.Status = "unknown"
+	}
+	for i := 0; i < len(lines); i++ {
+		l := strings.TrimSpace(strings.Trim(strings.TrimSpace(lines[i]), "\""))
+		if strings.HasPrefix(l, "CV ") {
+			var idx int
+			fmt.Sscanf(l, "CV %d", &idx)
+			if i+1 < len(lines) {
+				for _, c := range g.covers {
+					if c.item == idx {
+						c.Status = strings.TrimSpace(lines[i+1])
+					}
+				}
 			}
 		}
 	}
